@@ -81,6 +81,10 @@ OPTIONS_AFFECTING_CACHE: Final = (
         "untyped_calls_exclude",
         "enable_incomplete_feature",
         "install_types",
+        # These affect how errors of a module are rendered, and the rendered
+        # errors are stored in the cache (and replayed for fresh modules).
+        "show_error_context",
+        "show_absolute_path",
     }
 ) - {"debug_cache"}
 
